@@ -480,6 +480,20 @@ fn family_cpio(g: &mut Gen<'_>, rng: &mut Rng, n_random: usize) {
             archives.push(a);
         }
     }
+    // long runs of members that the header does not list (and of members it lists again and again):
+    // whatever the reader does with them, it must not need a stack frame per member
+    for n in if g.thorough { vec![300usize, 3000, 30_000, 100_000] } else { vec![300usize, 3000, 30_000] } {
+        for listed in [false, true] {
+            let one = if listed { good(0) } else { mcpio::enc_newc(b"./not-in-the-header", 0o100644, 7, b"") };
+            let mut a = Vec::with_capacity(one.len() * n + 200);
+            for _ in 0..n {
+                a.extend_from_slice(&one);
+            }
+            a.extend(good(1));
+            a.extend(mcpio::enc_trailer());
+            archives.push(a);
+        }
+    }
     // non-hex fields
     let mut a = good(0);
     a[6..14].copy_from_slice(b"zzzzzzzz");
